@@ -87,7 +87,7 @@ BARE_PAIRS = [(b'\x51', b'\x51\x87'), (b'\x52\x53', b'\x93\x55\x87'), (b'\x51\x5
               (b'\x51\x63\x68', b''), (b'\x51\x61', b''), (b'', b'\x51'), (b'\x51\x51', b'\x75'), (b'\x51\x51', b''), (b'\x00', b''), (b'\x51\x69\x51', b'')]
 
 
-def arith_script(rnd):
+def arith_script(rnd, allow_invalid=False):
     """a keyless script with arguments: <a> <b> on the stack, script checks a+b == c under some branches"""
     a, b = rnd.randrange(0, 1000), rnd.randrange(0, 1000)
     body = b'\x93' + num(a + b) + b'\x87'
@@ -96,6 +96,19 @@ def arith_script(rnd):
         args = [R.num_enc(a), R.num_enc(b), b'\x01']
     else:
         args = [R.num_enc(a), R.num_enc(b)]
+    r_ = rnd.random()
+    if r_ < 0.08:
+        # an argument at / over the element size limit (520 bytes), dropped by the script: as a witness argument it is subject to the limit like a push
+        n = rnd.choice([519, 520, 520, 521, 521, 600])
+        if not allow_invalid:
+            n = min(n, 520)
+        return b'\x75\x51', [bytes([7]) * n]
+    if r_ < 0.12:
+        # many arguments: a tapscript's initial stack is limited to 1000 items, a witness v0 script's is not (only the stack while executing is)
+        n = rnd.choice([100, 101, 999, 1000, 1000, 1001, 1001, 1002])
+        if not allow_invalid:
+            n = min(n, 999)          # (a P2SH scriptSig pushes the arguments AND the redeem script: 1000 arguments are already one too many there)
+        return b'\x6d' * ((n - 1) // 2) + (b'\x75' if (n - 1) % 2 else b''), [b'\x01'] * n
     if rnd.random() < 0.12:
         # a keyless script of the pay-to-script-hash SHAPE whose argument is its hash preimage: as a witness script, tapscript leaf or P2SH redeem
         # script it is an ordinary script (the preimage is data, never run as a script)
@@ -114,7 +127,7 @@ def build(rnd, typ, ninputs=None, same_fund_decoy=False, allow_invalid=False):
     ms = num(2) + P(k[0].pub) + P(k[1].pub) + P(k[2].pub) + num(3) + b'\xae'
     meta = {}
     redeem = None
-    ascript, aargs = arith_script(rnd)
+    ascript, aargs = arith_script(rnd, allow_invalid)
     if typ == 'p2pk':
         spk = P(k[0].pub) + b'\xac'
     elif typ == 'p2pkh':
@@ -156,6 +169,15 @@ def build(rnd, typ, ninputs=None, same_fund_decoy=False, allow_invalid=False):
             leaf_script = P(k[1].x) + b'\xac' + P(k[2].x) + b'\xba' + num(2) + b'\x9c'
             meta['leafkind'] = 'checksigadd'
         elif r < 0.82:
+            if rnd.random() < 0.3:
+                # the 1000-item limit on a tapscript's initial stack, at and one over (and the 520-byte limit on its arguments)
+                if rnd.random() < 0.6:
+                    n_ = rnd.choice([999, 1000, 1000, 1001, 1001])
+                    if not allow_invalid:
+                        n_ = min(n_, 1000)
+                    ascript, aargs = b'\x6d' * ((n_ - 1) // 2) + (b'\x75' if (n_ - 1) % 2 else b''), [b'\x01'] * n_
+                else:
+                    ascript, aargs = b'\x75\x51', [bytes([7]) * (rnd.choice([520, 521]) if allow_invalid else 520)]
             leaf_script = ascript
             meta['leafkind'] = 'keyless'
         elif r < 0.85:
